@@ -93,17 +93,30 @@ def body_app(buf, max_body):
         body = app.request.body
         res['out'] = body.read()
         res['spooled'] = not isinstance(body, io.BytesIO)
+        # every later presentation of the body is the same bytes (a signature-checking hook, then the handler; a peek, then a full read)
+        peek = app.request.body.read(3)
+        again = app.request.body.read()
+        res['reread'] = 'same' if (again == res['out'] and peek == res['out'][:3]) else 'differs'
         return 'ok'
     _apps[key] = (app, res)
     return _apps[key]
 
 
-def run_real(mode, inp, cl, buf, max_body, schedule=None, rng=None, kind='cl', expect=b'', short_p=0.5):
+CTYPES = [None, None, 'application/octet-stream', 'text/plain', 'application/json', 'application/x-www-form-urlencoded',
+          'multipart/form-data; boundary=b', 'multipart/form-data; boundary="x y"', 'multipart/related; boundary=--', 'multipart/form-data',
+          'Multipart/Mixed; boundary=0']
+
+
+def run_real(mode, inp, cl, buf, max_body, schedule=None, rng=None, kind='cl', expect=b'', short_p=0.5, ctype=None):
     app, res = body_app(buf, max_body)
     res.clear()
     st = Stream(bytes(inp), schedule, rng, short_p)
     env = base_environ(REQUEST_METHOD='POST', PATH_INFO='/b')
     env['wsgi.input'] = st
+    if ctype is None and rng is not None:
+        ctype = rng.choice(CTYPES)       # request.body is the raw body whatever the media type says
+    if ctype:
+        env['CONTENT_TYPE'] = ctype
     if mode == 'cl':
         if cl >= 0:
             env['CONTENT_LENGTH'] = str(cl)
@@ -124,6 +137,7 @@ def run_real(mode, inp, cl, buf, max_body, schedule=None, rng=None, kind='cl', e
         'mode': mode, 'inp': bytes(inp), 'cl': cl, 'buf': buf, 'maxBody': max_body,
         'ev': st.ev, 'phase': phase, 'out': out if phase == 'done' else b'',
         'spooled': bool(res.get('spooled', False)) if phase == 'done' else False,
+        'reread': res.get('reread', 'na') if phase == 'done' else 'na', 'ctype': ctype or '',
         'kind': kind, 'expect': bytes(expect), 'errors': env['wsgi.errors'].getvalue()[-400:],
     }
 
@@ -131,7 +145,7 @@ def run_real(mode, inp, cl, buf, max_body, schedule=None, rng=None, kind='cl', e
 def to_content_trace(t):
     return {'mode': t['mode'], 'inp': list(t['inp']), 'cl': t['cl'], 'buf': t['buf'], 'maxBody': t['maxBody'],
             'ev': t['ev'], 'phase': t['phase'], 'out': list(t['out']), 'spooled': t['spooled'],
-            'kind': t['kind'], 'expect': list(t['expect'])}
+            'kind': t['kind'], 'expect': list(t['expect']), 'reread': t.get('reread', 'na')}
 
 
 def to_num_trace(t):
@@ -152,7 +166,7 @@ def case_of(t):
     return {'mode': t['mode'], 'inp_hex': t['inp'].hex() if len(t['inp']) <= 4096 else None,
             'inp_len': len(t['inp']), 'cl': t['cl'], 'buf': t['buf'], 'maxBody': t['maxBody'],
             'reads': [e[1] for e in t['ev']][:5000], 'phase': t['phase'], 'kind': t['kind'],
-            'out_len': len(t['out']), 'expect_hex': t['expect'].hex() if len(t['expect']) <= 4096 else None,
+            'ctype': t.get('ctype', ''), 'reread': t.get('reread', 'na'), 'out_len': len(t['out']), 'expect_hex': t['expect'].hex() if len(t['expect']) <= 4096 else None,
             'seed_data': t.get('seed_data')}
 
 
